@@ -221,10 +221,13 @@ Proof.
   induction ls as [|x ls IH]; [reflexivity|]. cbn [forallb]. rewrite andb_true_iff. intros [A B]. rewrite lead_text_cons.
   unfold all_ws. rewrite forallb_app. cbn [forallb]. fold (all_ws x). fold (all_ws (lead_text ls)). rewrite (all_blank_ws x A), (IH B). reflexivity.
 Qed.
-Lemma xml_decl_facts q : q = 34 \/ q = 39 ->
-  ~ In 10 (xml_decl_q q) /\ ascii (xml_decl_q q) = true /\ (forall Y, match_xml (xml_decl_q q ++ Y) = true) /\ exists x, xml_decl_q q = 60 :: x.
+Lemma xml_decl_facts v e s : quote_ok v = true -> quote_ok e = true -> quote_ok s = true ->
+  ~ In 10 (xml_decl_gen v e s) /\ ascii (xml_decl_gen v e s) = true /\ (forall Y, match_xml (xml_decl_gen v e s ++ Y) = true)
+  /\ exists x, xml_decl_gen v e s = 60 :: x.
 Proof.
-  intros [Q|Q]; subst q; (split; [vm_compute; intuition discriminate|split; [reflexivity|split; [intro Y; vm_compute; reflexivity|eexists; reflexivity]]]).
+  intros Qv Qe Qs.
+  destruct (quote_cases v Qv) as [-> | [-> | ->]]; destruct (quote_cases e Qe) as [-> | [-> | ->]]; destruct (quote_cases s Qs) as [-> | [-> | ->]];
+    (split; [vm_compute; intuition discriminate|split; [reflexivity|split; [intro Y; vm_compute; reflexivity|eexists; reflexivity]]]).
 Qed.
 
 Theorem parse_header_exact_v2_l l h encbody body' :
@@ -233,28 +236,27 @@ Theorem parse_header_exact_v2_l l h encbody body' :
   parse_header (file2 l h encbody) = OK (H2 h, body').
 Proof.
   intros V L [br EB] DE.
-  unfold lay2_ok in L. rewrite !andb_true_iff in L. destruct L as [[[[Ln Lb] Lq] La] Lbb].
-  assert (Q : m_quote l = 34 \/ m_quote l = 39) by (clear - Lq; lia).
-  destruct (xml_decl_facts (m_quote l) Q) as [XN [XA [XM [xx XE]]]].
+  unfold lay2_ok in L. rewrite !andb_true_iff in L. destruct L as [[[[[[Ln Lb] Qv] Qe] Qs] La] Lbb].
+  destruct (xml_decl_facts _ _ _ Qv Qe Qs) as [XN [XA [XM [xx XE]]]].
   unfold parse_header, parse_header_gen, file2.
-  assert (HD : head2 l h ++ encbody = lead_text (m_lines l) ++ (xml_decl_q (m_quote l) ++ m_a l ++ ofx_decl h ++ m_b l ++ encbody)).
+  assert (HD : head2 l h ++ encbody = lead_text (m_lines l) ++ (xml_decl_gen (m_ver l) (m_enc l) (m_sa l) ++ m_a l ++ ofx_decl h ++ m_b l ++ encbody)).
   { unfold head2. rewrite <- !app_assoc. reflexivity. }
-  rewrite HD. set (rest := xml_decl_q (m_quote l) ++ m_a l ++ ofx_decl h ++ m_b l ++ encbody).
-  assert (FL : fst (readline rest) = xml_decl_q (m_quote l) ++ fst (readline (m_a l ++ ofx_decl h ++ m_b l ++ encbody))).
+  rewrite HD. set (rest := xml_decl_gen (m_ver l) (m_enc l) (m_sa l) ++ m_a l ++ ofx_decl h ++ m_b l ++ encbody).
+  assert (FL : fst (readline rest) = xml_decl_gen (m_ver l) (m_enc l) (m_sa l) ++ fst (readline (m_a l ++ ofx_decl h ++ m_b l ++ encbody))).
   { unfold rest. rewrite readline_pre by exact XN. reflexivity. }
   assert (NB : nonblank (map scan_char (fst (readline rest))) = true).
   { rewrite FL, map_app, (scan_ascii _ XA), XE. reflexivity. }
   rewrite (skip_blank_lead (m_lines l) 8 rest 0 Lb ltac:(clear - Ln; apply Nat.leb_le in Ln; lia) NB). cbn [bind].
   rewrite FL, map_app, (scan_ascii _ XA), XM.
   subst rest. rewrite <- HD. change v2_codec with 2. unfold decode. rewrite DE. cbn [bind].
-  assert (SRC : head2 l h ++ body' = (lead_text (m_lines l) ++ xml_decl_q (m_quote l) ++ m_a l) ++ ofx_decl h ++ (m_b l ++ body')).
+  assert (SRC : head2 l h ++ body' = (lead_text (m_lines l) ++ xml_decl_gen (m_ver l) (m_enc l) (m_sa l) ++ m_a l) ++ ofx_decl h ++ (m_b l ++ body')).
   { unfold head2. rewrite <- !app_assoc. reflexivity. }
   rewrite SRC. rewrite parse_v2_at; [|exact V|].
   - cbn [bind]. rewrite skipws_app_space by (apply all_ws_space; exact Lbb). rewrite EB. rewrite skipws_stop by (vm_compute; reflexivity).
     rewrite <- EB. f_equal. f_equal.
-    assert (E : (lead_text (m_lines l) ++ xml_decl_q (m_quote l) ++ m_a l) ++ ofx_decl h ++ m_b l ++ body'
-                = ((lead_text (m_lines l) ++ xml_decl_q (m_quote l) ++ m_a l) ++ ofx_decl h ++ m_b l) ++ body') by (rewrite <- !app_assoc; reflexivity).
+    assert (E : (lead_text (m_lines l) ++ xml_decl_gen (m_ver l) (m_enc l) (m_sa l) ++ m_a l) ++ ofx_decl h ++ m_b l ++ body'
+                = ((lead_text (m_lines l) ++ xml_decl_gen (m_ver l) (m_enc l) (m_sa l) ++ m_a l) ++ ofx_decl h ++ m_b l) ++ body') by (rewrite <- !app_assoc; reflexivity).
     rewrite E. rewrite len_app. rewrite N.add_sub. apply skipN_app.
   - rewrite <- !app_assoc. rewrite search_v2_skip by (apply ws_no_lt, lead_text_ws; exact Lb).
-    rewrite xml_decl_skip by exact Q. apply search_v2_skip. apply ws_no_lt. exact La.
+    rewrite xml_decl_gen_skip by assumption. apply search_v2_skip. apply ws_no_lt. exact La.
 Qed.
